@@ -55,7 +55,6 @@ func (k Keeper) RecvPacket(goCtx context.Context, msg *packettypes.MsgRecvPacket
 		return nil, sdkerrors.Wrap(err, "receive packet verification failed")
 	}
 
-	cctx, write := ctx.CacheContext()
 	var packet packettypes.Packet
 	if err := packet.ABIDecode(msg.Packet); err != nil {
 		return nil, sdkerrors.Wrapf(packettypes.ErrABIPack, "RecvPacket failed,decode packet err: %s", err)
@@ -66,9 +65,12 @@ func (k Keeper) RecvPacket(goCtx context.Context, msg *packettypes.MsgRecvPacket
 		return nil, sdkerrors.Wrapf(packettypes.ErrRelayerNotFound, "relayer on source chain not found")
 	}
 
-	if packet.GetDstChain() == k.ClientKeeper.GetChainName(cctx) {
+	if packet.GetDstChain() == k.ClientKeeper.GetChainName(ctx) {
+		// run the callback on a cached context: its effects are kept only if it succeeds,
+		// so that an error acknowledgement never leaves tokens or contract state behind
+		cctx, write := ctx.CacheContext()
 		// call packet onRecvPacket
-		res, err := k.PacketKeeper.CallPacket(ctx, "onRecvPacket", packet)
+		res, err := k.PacketKeeper.CallPacket(cctx, "onRecvPacket", packet)
 		if err != nil {
 			// Write ErrAck
 			errAckBz, err := packettypes.NewAcknowledgement(1, []byte{}, "receive packet callback failed", relayer, packet.FeeOption).ABIPack()
@@ -84,6 +86,10 @@ func (k Keeper) RecvPacket(goCtx context.Context, msg *packettypes.MsgRecvPacket
 		var result packettypes.Result
 		if err := packetcontract.PacketContract.ABI.UnpackIntoInterface(&result, "onRecvPacket", res.Ret); err != nil {
 			return nil, sdkerrors.Wrapf(packettypes.ErrABIPack, "recv packet failed, decode result err: %s", err)
+		}
+		if result.Code == 0 {
+			write()
+			ctx.EventManager().EmitEvents(cctx.EventManager().Events())
 		}
 		ackBz, err := packettypes.NewAcknowledgement(result.Code, result.Result, result.Message, relayer, packet.FeeOption).ABIPack()
 		if err != nil {
@@ -103,9 +109,6 @@ func (k Keeper) RecvPacket(goCtx context.Context, msg *packettypes.MsgRecvPacket
 		}
 		return &packettypes.MsgRecvPacketResponse{}, nil
 	}
-
-	write()
-	ctx.EventManager().EmitEvents(cctx.EventManager().Events())
 
 	return &packettypes.MsgRecvPacketResponse{}, nil
 }
